@@ -18,3 +18,127 @@ Definition tr_TarsRequest (maxPackageLength : Z) (rev : (list N)) : ctl unit (Z 
     else if ((go_len rev) <? iHeaderLen)
     then Return (0, k_protocol_PackageLess)
     else Return (iHeaderLen, k_protocol_PackageFull)).
+
+(* tars/protocol/codec/codec.go: func Buffer.WriteHead *)
+Definition tr_WriteHead (ty : Z) (tag : Z) (out : list N) : ctl (list N) (list N * bool) :=
+  bindc (if (tag <? 15)
+      then let data := (Z.lor (wrapU 8 (Z.shiftl tag 4)) ty) in
+        let out := out ++ (go_emit_u8 data) in let err__ := false in
+        Return (out, err__)
+      else let data_1 := (Z.lor 240 ty) in
+        let out := out ++ (go_emit_u8 data_1) in let err := false in
+        bindc (if (negb (Bool.eqb err false))
+          then Return (out, err)
+          else Next out)
+        (fun out : (list N) => 
+        let out := out ++ (go_emit_u8 tag) in let err__ := false in
+        Return (out, err__)))
+    (fun out : (list N) => 
+    Next out).
+
+Definition k_codec_ZeroTag : Z := 12.
+Definition k_codec_BYTE : Z := 0.
+(* tars/protocol/codec/codec.go: func Buffer.WriteInt8 *)
+Definition tr_WriteInt8 (data : Z) (tag : Z) (out : list N) : ctl (list N) (list N * bool) :=
+  let err : bool := false in
+    bindc (if (data =? 0)
+      then go_call (tr_WriteHead k_codec_ZeroTag tag out) (fun r => let '(out, err) := r in
+        bindc (if (negb (Bool.eqb err false))
+          then Return (out, err)
+          else Next out)
+        (fun out : (list N) => 
+        Next (out, err)))
+      else go_call (tr_WriteHead k_codec_BYTE tag out) (fun r => let '(out, err) := r in
+        bindc (if (negb (Bool.eqb err false))
+          then Return (out, err)
+          else Next out)
+        (fun out : (list N) => 
+        let out := out ++ (go_emit_u8 (wrapU 8 data)) in let err := false in
+        bindc (if (negb (Bool.eqb err false))
+          then Return (out, err)
+          else Next out)
+        (fun out : (list N) => 
+        Next (out, err)))))
+    (fun st : (list N) * bool => let '(out, err) := st in 
+    Return (out, false)).
+
+Definition k_math_MinInt8 : Z := (-128).
+Definition k_math_MaxInt8 : Z := 127.
+Definition k_codec_SHORT : Z := 1.
+(* tars/protocol/codec/codec.go: func Buffer.WriteInt16 *)
+Definition tr_WriteInt16 (data : Z) (tag : Z) (out : list N) : ctl (list N) (list N * bool) :=
+  let err : bool := false in
+    bindc (if (andb (k_math_MinInt8 <=? data) (data <=? k_math_MaxInt8))
+      then go_call (tr_WriteInt8 (wrapS 8 data) tag out) (fun r => let '(out, err) := r in
+        bindc (if (negb (Bool.eqb err false))
+          then Return (out, err)
+          else Next out)
+        (fun out : (list N) => 
+        Next (out, err)))
+      else go_call (tr_WriteHead k_codec_SHORT tag out) (fun r => let '(out, err) := r in
+        bindc (if (negb (Bool.eqb err false))
+          then Return (out, err)
+          else Next out)
+        (fun out : (list N) => 
+        let out := out ++ (go_emit_u16 (wrapU 16 data)) in let err := false in
+        bindc (if (negb (Bool.eqb err false))
+          then Return (out, err)
+          else Next out)
+        (fun out : (list N) => 
+        Next (out, err)))))
+    (fun st : (list N) * bool => let '(out, err) := st in 
+    Return (out, false)).
+
+Definition k_math_MinInt16 : Z := (-32768).
+Definition k_math_MaxInt16 : Z := 32767.
+Definition k_codec_INT : Z := 2.
+(* tars/protocol/codec/codec.go: func Buffer.WriteInt32 *)
+Definition tr_WriteInt32 (data : Z) (tag : Z) (out : list N) : ctl (list N) (list N * bool) :=
+  let err : bool := false in
+    bindc (if (andb (k_math_MinInt16 <=? data) (data <=? k_math_MaxInt16))
+      then go_call (tr_WriteInt16 (wrapS 16 data) tag out) (fun r => let '(out, err) := r in
+        bindc (if (negb (Bool.eqb err false))
+          then Return (out, err)
+          else Next out)
+        (fun out : (list N) => 
+        Next (out, err)))
+      else go_call (tr_WriteHead k_codec_INT tag out) (fun r => let '(out, err) := r in
+        bindc (if (negb (Bool.eqb err false))
+          then Return (out, err)
+          else Next out)
+        (fun out : (list N) => 
+        let out := out ++ (go_emit_u32 (wrapU 32 data)) in let err := false in
+        bindc (if (negb (Bool.eqb err false))
+          then Return (out, err)
+          else Next out)
+        (fun out : (list N) => 
+        Next (out, err)))))
+    (fun st : (list N) * bool => let '(out, err) := st in 
+    Return (out, false)).
+
+Definition k_math_MinInt32 : Z := (-2147483648).
+Definition k_math_MaxInt32 : Z := 2147483647.
+Definition k_codec_LONG : Z := 3.
+(* tars/protocol/codec/codec.go: func Buffer.WriteInt64 *)
+Definition tr_WriteInt64 (data : Z) (tag : Z) (out : list N) : ctl (list N) (list N * bool) :=
+  let err : bool := false in
+    bindc (if (andb (k_math_MinInt32 <=? data) (data <=? k_math_MaxInt32))
+      then go_call (tr_WriteInt32 (wrapS 32 data) tag out) (fun r => let '(out, err) := r in
+        bindc (if (negb (Bool.eqb err false))
+          then Return (out, err)
+          else Next out)
+        (fun out : (list N) => 
+        Next (out, err)))
+      else go_call (tr_WriteHead k_codec_LONG tag out) (fun r => let '(out, err) := r in
+        bindc (if (negb (Bool.eqb err false))
+          then Return (out, err)
+          else Next out)
+        (fun out : (list N) => 
+        let out := out ++ (go_emit_u64 (wrapU 64 data)) in let err := false in
+        bindc (if (negb (Bool.eqb err false))
+          then Return (out, err)
+          else Next out)
+        (fun out : (list N) => 
+        Next (out, err)))))
+    (fun st : (list N) * bool => let '(out, err) := st in 
+    Return (out, false)).
